@@ -11,7 +11,27 @@ class Ios:
     pass
 
 
-def make_ios(g, rng, mod):
+# every third module is built with INTEGER_t identifiers and members (the object table then holds octet-string constants)
+OPTSETS = [(), (), ("-fwide-types",)]
+
+
+def wrapper_rewritings(doc):
+    """value-preserving rewritings of an XER frame that touch only the surroundings of the open type's wrapper element:
+    white space / comments before <value>, after <value>, before </value>, after </value> (X.693 8.1.4/8.1.5)"""
+    a = doc.find(b"<value>")
+    z = doc.rfind(b"</value>")
+    if a < 0 or z < a:
+        return []
+    pos = [("before-open", a), ("after-open", a + 7), ("before-close", z), ("after-close", z + 8)]
+    fill = [("ws", b" "), ("ws", b"\n\t"), ("comment", b"<!-- note -->"), ("comment", b" <!-- <x>1</x> --> ")]
+    out = []
+    for pn, at in pos:
+        for fn, fb in fill:
+            out.append((pn + ":" + fn, doc[:at] + fb + doc[at:]))
+    return out
+
+
+def make_ios(g, rng, mod, wide=False):
     ios = Ios()
     names = list(mod.types.keys())
     k = rng.choice([1, 2, 2, 3, 4, 5, 8])
@@ -19,7 +39,17 @@ def make_ios(g, rng, mod):
     ios.idkind = rng.choice(["int", "int", "cint", "cint", "oid"])
     if ios.idkind == "int":
         pool = list(range(-3, 12)) + [127, 128, 255, 256, 32767, 32768, 65535, 100000, 2147483647]
+        if wide:
+            # asn1c states that it emits INTEGER_t constants for 0..32767 only ("Unsupported value ... range")
+            pool = [p_ for p_ in pool if 0 <= p_ <= 32767] + [129, 200, 254, 300]
         ids = rng.sample(pool, len(rows))
+        if wide:
+            # the one- / two-octet boundary of the emitted constants is always present
+            hi = rng.choice([128, 129, 200, 254, 255])
+            if hi not in ids:
+                ids[0] = hi
+            if len(ids) > 1 and 127 not in ids:
+                ids[1] = 127
         ios.idtype = Type("INTEGER")
         ios.idtext = "INTEGER"
     elif ios.idkind == "cint":
@@ -136,7 +166,7 @@ def run(tier, seed):
         g = gen.Gen(ms, prof)
         r2 = random.Random(ms)
         mod = g.module("M", atoms=8, composites=4)
-        ios = make_ios(g, r2, mod)
+        ios = make_ios(g, r2, mod, wide="-fwide-types" in OPTSETS[i % len(OPTSETS)])
         text = mod.text()
         assert text.rstrip().endswith("END")
         text = text.rstrip()[:-3] + ios_text(ios, mod) + "\nEND\n"
@@ -145,7 +175,7 @@ def run(tier, seed):
         path = os.path.join(d, "M.asn1")
         open(path, "w").write(text)
         try:
-            exe, p = build.compile_module(tc, [path], os.path.join(d, "out"))
+            exe, p = build.compile_module(tc, [path], os.path.join(d, "out"), options=OPTSETS[i % len(OPTSETS)])
         except build.BuildError as e:
             return (ms, g, mod, ios, text, None, ("cc", str(e)[-1500:]))
         if exe is None:
@@ -272,6 +302,23 @@ def run(tier, seed):
                     cases2.append(drv.Case(cid2, ["dec s=0 t=Frame syn=%s in=%s" % (syn, drv.hx(mb)), "prt s=0", "chk s=0 eb=64",
                                                    "enc s=0 syn=DER quiet=1", "enc s=0 syn=UPER quiet=1", "enc s=0 syn=CXER quiet=1", "free s=0"]))
                     meta2[cid2] = ("mutant-" + syn, m[1], mk, mb)
+        # third round: the library's own XER frames with white space / comments around the wrapper element
+        cases3, meta3 = [], {}
+        for cid, m in meta.items():
+            if m[0] != "match":
+                continue
+            r = res.get(cid)
+            if r is None or r.status != "ok" or len(r.events) < 15 or r.events[2].get("out") in (None, "-"):
+                continue
+            if r.events[12].get("rc") != "OK" or r.events[13].get("out") in (None, "-"):
+                continue        # the unmodified document is not read back: judged in the first round
+            own = drv.unhex(r.events[2]["out"])
+            rws = wrapper_rewritings(own)
+            for fam, doc in (rws if not quick else rng.sample(rws, min(len(rws), 6))):
+                cid3 = len(cases3) + 1
+                cases3.append(drv.Case(cid3, ["dec s=0 t=Frame syn=CXER in=%s" % drv.hx(doc), "enc s=0 syn=DER", "free s=0"]))
+                meta3[cid3] = (m[1], fam, doc, r.events[13]["out"])
+        res3 = drv.run_parallel(exe, cases3)
         res2 = drv.run_parallel(exe, cases2)
 
         def safety(r, what, key, replay):
@@ -391,6 +438,27 @@ def run(tier, seed):
             if d.get("rc") not in ("OK", "WMORE", "FAIL"):
                 chk.violation(dict(key, symptom="illegal-rc"), "decoder returned %s" % d.get("rc"), {"module": text, "input_hex": mb.hex()})
             chk.count("mutant_rc_" + str(d.get("rc")))
+        for cid3, (tn, fam, doc, der0) in meta3.items():
+            r = res3.get(cid3)
+            if r is None or r.status == "notrun":
+                chk.inconcl("case not run")
+                continue
+            chk.evaluations += 1
+            chk.seen((ms, "xer-wrapper", doc))
+            rk = mod.resolve(mod.types[tn]).kind
+            key = {"case": "xer-wrapper", "idkind": idk, "rowkind": rk, "place": fam.split(":")[0], "fill": fam.split(":")[1]}
+            replay = {"module": text, "row_type": tn, "input_hex": doc.hex(), "syntax": "CXER", "document": doc.decode("latin-1")[:1500]}
+            if safety(r, "XER frame carrying %s, %s" % (tn, fam), key, replay):
+                continue
+            d = r.events[0] if r.events else {}
+            e = r.events[1] if len(r.events) > 1 else {}
+            if d.get("rc") != "OK" or e.get("out") != der0:
+                chk.violation(dict(key, symptom="xer-rewriting-read-differently"),
+                              "XER frame carrying %s with %s %s the open type's wrapper: decode %s, DER %s; the unmodified document decodes OK to %s" % (
+                                  tn, "a comment" if "comment" in fam else "white space", fam.split(":")[0].replace("-", " ") + " tag of",
+                                  d.get("rc"), (e.get("out") or "-")[:40], der0[:40]), replay)
+            else:
+                chk.count("xer_wrapper_rewriting_ok")
         import shutil
         shutil.rmtree(os.path.dirname(os.path.dirname(exe)), ignore_errors=True)
     return chk.finish()
